@@ -236,7 +236,7 @@ JsonCatalogue == <<
   J("json-huge-number", "quoted-2^256", "lit", 0, "\"115792089237316195423570985008687907853269984665640564039457584007913129639936\""),
   J("json-huge-number", "quoted-exponent", "lit", 0, "\"1e1000000000\""), J("json-huge-number", "quoted-hex", "lit", 0, "\"0xffffffffffffffffffffffffffffffffffffffffffffffffffffffffffffffffffff\""),
   J("json-huge-number", "quoted-unit", "lit", 0, "\"340282366920938463463374607431768211456 TS\""), J("json-huge-number", "quoted-fraction", "lit", 0, "\"0.0000000000000000000000000000000000001 SC\""),
-  J("json-number-exponent", "quoted-exponent-unit", "lit", 0, "\"1e300000 SC\""), J("json-number-exponent", "quoted-negative-exponent-unit", "lit", 0, "\"1e-300000 TS\""),
+  J("json-number-exponent", "quoted-exponent-unit", "lit", 0, "\"1e300000 SC\""),
   J("json-number-exponent", "quoted-exponent", "lit", 0, "\"1e300000\""),
   J("json-long-hex", "hex", "hex", 0, ""), J("json-long-hex", "hex", "hex", 1, ""), J("json-long-hex", "hex", "hex", 15, ""), J("json-long-hex", "hex", "hex", 16, ""), J("json-long-hex", "hex", "hex", 17, ""),
   J("json-long-hex", "hex", "hex", 31, ""), J("json-long-hex", "hex", "hex", 32, ""), J("json-long-hex", "hex", "hex", 33, ""), J("json-long-hex", "hex", "hex", 63, ""), J("json-long-hex", "hex", "hex", 64, ""),
@@ -272,7 +272,7 @@ TextCatalogue == <<
   J("text-number", "digits", "digits", 1000, ""), J("text-number", "digits", "digits", 100000, ""), J("text-number", "digits", "digits", 300000, ""), J("text-number", "negative", "neg-digits", 5, ""),
   J("text-number", "hex-form", "lit", 0, "0x1f"), J("text-number", "exponent", "lit", 0, "1e5"), J("text-number", "huge-exponent", "lit", 0, "1e1000000000"), J("text-number", "unit", "lit", 0, "1 SC"),
   J("text-number", "huge-unit", "lit", 0, "340282366920938463463374607431768211456 TS"), J("text-number", "fraction", "lit", 0, "1.5"), J("text-number", "tiny-fraction", "lit", 0, "0.0000000000000000000000000000000000001 SC"),
-  J("text-number-exponent", "exponent-unit", "lit", 0, "1e300000 SC"), J("text-number-exponent", "negative-exponent-unit", "lit", 0, "1e-300000 TS"),
+  J("text-number-exponent", "exponent-unit", "lit", 0, "1e300000 SC"),
   J("text-number-exponent", "exponent", "lit", 0, "1e300000"),
   J("text-number", "underscores", "lit", 0, "1_000"), J("text-number", "sign-only", "lit", 0, "-"), J("text-number", "plus", "lit", 0, "+1"), J("text-number", "2^256", "lit", 0, "115792089237316195423570985008687907853269984665640564039457584007913129639936"),
   J("text-chars", "non-hex", "lit", 0, "zz00000000000000000000000000000000000000000000000000000000000000"), J("text-chars", "colon-only", "lit", 0, ":"), J("text-chars", "double-colon", "lit", 0, "::"),
